@@ -349,21 +349,30 @@ def aperture_weight(dp_cfg, gpts, pixels_mask):
     return float((A[pixels_mask] ** 2).sum()), (KXr, KYr, lam)
 
 
+def _orig_mask_of_rows(mask, rows):
+    """Boolean mask (ORIGINAL detector coordinates, before any cropping by the constructor) of the pixels recorded in the given stack rows;
+    stack row r <-> r-th pixel of the construction mask in row-major order."""
+    import numpy as np
+
+    pix = np.argwhere(mask)
+    m = np.zeros_like(mask)
+    for r in (range(len(pix)) if rows is None else rows):
+        m[tuple(pix[r])] = True
+    return m
+
+
 @_guard
 def rt_recombine(cfg):
     """Single-pass kernels: W_A bf_A + W_B bf_B = W bf_full for complementary sub-masks A, B of the construction mask."""
     import numpy as np
 
     dp, stack, mask = _build(cfg)
-    n = dp.num_bf
+    n = stack.shape[0]
     A = sorted(cfg["sub"])
     B = [p for p in range(n) if p not in A]
-    full = dp.bf_mask.numpy().astype(bool)
-    gp = tuple(full.shape)
 
     def W(keep):
-        m = _submask(dp, keep).numpy().astype(bool) if keep is not None else full
-        return aperture_weight(cfg, gp, m)[0]
+        return aperture_weight(cfg, tuple(mask.shape), _orig_mask_of_rows(mask, keep))[0]
 
     bs = cfg.get("batch")
     rf = _recon(dp, cfg, None, bs).sum(0)
@@ -403,18 +412,19 @@ def rt_parallax(cfg):
     sub = cfg.get("sub")
     u = int(cfg.get("u") or 1)
     got = _recon(dp, cfg, sub, cfg.get("batch")).sum(0)
-    full = dp.bf_mask.numpy().astype(bool)
-    m = _submask(dp, sub).numpy().astype(bool) if sub is not None else full
-    Wm, (KX, KY, lam) = aperture_weight(cfg, tuple(full.shape), m)
+    # everything below is stated in the ORIGINAL detector coordinates of the mask handed to the constructor:
+    # stack row r was recorded at the r-th pixel (row-major) of that mask, whatever the constructor does to the mask internally
+    pix = np.argwhere(mask).tolist()
+    rows = list(range(len(pix))) if sub is None else list(sub)
+    Wm, (KX, KY, lam) = aperture_weight(cfg, tuple(mask.shape), _orig_mask_of_rows(mask, rows))
     dx, dy = _grad_chi_over_2pi(cfg.get("abers", {}), KX, KY, lam)
-    # stack order = row-major order of the construction mask
-    order = {tuple(p): r for r, p in enumerate(np.argwhere(full).tolist())}
     ss = cfg.get("scan_sampling", [0.5, 0.5])
     Ny, Nx = cfg["scan"]
     acc = np.zeros((u * Ny, u * Nx))
     how = set()
-    for (i, j) in np.argwhere(m).tolist():
-        img = stack[order[(i, j)]]
+    for r in rows:
+        i, j = pix[r]
+        img = stack[r]
         img = img - img.mean()
         fine = np.zeros((u * Ny, u * Nx))
         fine[::u, ::u] = img
@@ -471,6 +481,66 @@ def _marked_stack(cfg):
     for i, j in cfg["pixels"]:
         mask[i % det[0], j % det[1]] = True
     return np.stack([np.full(tuple(cfg["scan"]), float(i * det[1] + j), dtype=np.float32) for i, j in np.argwhere(mask).tolist()])
+
+
+
+def _signed(idx, n):
+    """Signed frequency index of corner-centred position idx on an axis of length n (np.fft.fftfreq convention)."""
+    return idx if idx < (n + 1) // 2 else idx - n
+
+
+@_guard
+def rt_crop(cfg):
+    """Constructor with crop_bf_mask=True: the internal mask must keep every pixel of the given mask at its signed detector frequency, in the
+    same row-major order (stack row r <-> r-th pixel), and the analytic parallax statement must hold in the ORIGINAL detector coordinates."""
+    import numpy as np
+
+    cfg = dict(cfg, crop=True)
+    dp, stack, mask = _build(cfg)
+    H, W = mask.shape
+    want = [(_signed(i, H), _signed(j, W)) for i, j in np.argwhere(mask).tolist()]
+    h, w = tuple(dp.bf_mask.shape)
+    got = [(_signed(i, h), _signed(j, w)) for i, j in np.argwhere(dp.bf_mask.numpy()).tolist()]
+    problems = []
+    if got != want:
+        problems.append(f"mask pixels (signed frequency indices) {want} became {got} (internal mask shape {(h, w)})")
+    r = rt_parallax(cfg)
+    if r["violated"]:
+        problems.append("parallax: " + r["observed"])
+    return dict(violated=bool(problems), observed="; ".join(problems) or "ok", expected="pixels keep their frequencies and order; " + r["expected"])
+
+
+def crop_class(inp, res=None):
+    """Failure class from the GEOMETRY of the input mask (fftshifted extent per axis), not from the outcome."""
+    import numpy as np
+
+    det = tuple(inp["det"])
+    pad = inp.get("pad", 1)
+    mask = np.zeros(det, dtype=bool)
+    for i, j in inp["pixels"]:
+        mask[i % det[0], j % det[1]] = True
+    sh = np.fft.fftshift(mask)
+    cls = "extent-centred-on-the-zero-frequency"
+    for ax in (0, 1):
+        pos = np.where(sh.any(axis=1 - ax))[0]
+        lo, hi, c = int(pos.min()), int(pos.max()), det[ax] // 2
+        if lo - pad < 0:
+            return "mask-within-padding-of-the-low-array-edge"
+        if (c - lo) - (hi - c) not in (0, 1):
+            cls = "mask-extent-not-centred-on-the-zero-frequency"
+    return cls
+
+
+def fam_crop(tier="quick", seed=0):
+    k = 0
+    for det in ([8, 8], [7, 7], [6, 9]):
+        for rows, cols in (([-1, 0, 1], [-1, 0, 1]), ([-1, 0, 1, 2], [-1, 0, 1]), ([-2, -1, 0, 1], [-1, 0, 1]), ([-1, 0, 1], [0, 1, 2]),
+                           ([-1, 0, 1], [-2, -1, 0]), ([0, 1], [0]), ([-3, -2, -1, 0, 1, 2], [-1, 0, 1])):
+            for pad in (0, 1, 2):
+                k += 1
+                pix = sorted({(r % det[0], c % det[1]) for r in rows for c in cols if abs(r) + abs(c) <= 3})
+                yield dict(scan=[5, 4], det=det, pixels=[list(p) for p in pix], pad=pad, abers=[{"C10": 120.0}, {"defocus": -90.0, "C12": 40.0, "phi12": 0.3}, {}][k % 3],
+                           u=1 + (k % 2), seed=seed + k, rot=[0.0, 0.4][k % 2], sub=None, batch=[None, 2][k % 2])
 
 
 KERNEL_ALIASES = {
@@ -568,9 +638,11 @@ def fam_batch(tier="quick", seed=0):
                         k += 1
                         continue
                     k += 1
+                    ab = _ABERS[(k + gi) % len(_ABERS)]
+                    if kernel == "prlx" and not ab:
+                        opts = dict(opts, flip=False)  # sign(sin(chi)) = 0 for zero aberrations: the flipped result is identically 0
                     yield dict(g, kernel=KERNEL_ALIASES[kernel][k % len(KERNEL_ALIASES[kernel])], u=u, sub=sorted(sub) if sub else None,
-                               abers=_ABERS[(k + gi) % len(_ABERS)], rot=[0.0, 0.3, -1.1][k % 3], opts=opts, seed=seed + k,
-                               soft=(k % 4 != 0))
+                               abers=ab, rot=[0.0, 0.3, -1.1][k % 3], opts=opts, seed=seed + k, soft=(k % 4 != 0))
 
 
 def fam_linear(tier="quick", seed=0):
@@ -581,8 +653,12 @@ def fam_linear(tier="quick", seed=0):
             for u in ((1, 2) if tier == "quick" else (1, 2, 3)):
                 k += 1
                 sub = _proper_sub(n, k % 3) if k % 2 else None
-                yield dict(g, kernel=kernel, u=u, sub=sorted(sub) if sub else None, abers=_ABERS[k % len(_ABERS)], rot=[0.0, 0.5][k % 2],
-                           opts=dict(lp=0.9) if k % 3 == 0 else {}, seed=seed + k, batch=[None, 2, 1][k % 3], ab=[1.5, -0.75])
+                ab = _ABERS[k % len(_ABERS)]
+                opts = dict(lp=0.9) if k % 3 == 0 else {}
+                if kernel == "prlx" and not ab:
+                    opts = dict(opts, flip=False)
+                yield dict(g, kernel=kernel, u=u, sub=sorted(sub) if sub else None, abers=ab, rot=[0.0, 0.5][k % 2],
+                           opts=opts, seed=seed + k, batch=[None, 2, 1][k % 3], ab=[1.5, -0.75])
 
 
 def fam_recombine(tier="quick", seed=0):
@@ -596,8 +672,9 @@ def fam_recombine(tier="quick", seed=0):
                     sub = _proper_sub(n, variant)
                     if not sub or len(set(sub)) == n:
                         continue
-                    yield dict(g, kernel=kernel, u=u, sub=sorted(set(sub)), abers=_ABERS[(k + 1) % len(_ABERS)], rot=[0.0, 0.7][k % 2],
-                               opts=dict(flip=(k % 2 == 0)), seed=seed + k, batch=[None, 3][k % 2])
+                    ab = _ABERS[(k + 1) % len(_ABERS)]
+                    yield dict(g, kernel=kernel, u=u, sub=sorted(set(sub)), abers=ab, rot=[0.0, 0.7][k % 2],
+                               opts=dict(flip=(k % 2 == 0) and bool(ab)), seed=seed + k, batch=[None, 3][k % 2])
 
 
 def _int_shift_defocus(g, pixels=1):
@@ -647,7 +724,7 @@ def fam_bf_context(tier="quick", seed=0):
 
 def fam_aliases(tier="quick", seed=0):
     for gi, g in enumerate(_GEOMS[:2] if tier == "quick" else _GEOMS):
-        yield dict(g, u=1 + gi % 2, sub=None, abers=_ABERS[1 + gi], rot=0.2, seed=seed + gi, batch=2)
+        yield dict(g, u=1 + gi % 2, sub=None, abers=_ABERS[(1 + gi) % len(_ABERS)], rot=0.2, seed=seed + gi, batch=2)
 
 
 # ------------------------------------------------------------------------------------------------
@@ -1226,7 +1303,7 @@ LEMMAS = [
 # ------------------------------------------------------------------------------------------------
 # run-time oracle attached to the contracts (replay of failed obligations on the real code; first failing input is cached)
 # ------------------------------------------------------------------------------------------------
-_CHECKS = {"batch": (rt_batch, fam_batch), "linear": (rt_linear, fam_linear), "recombine": (rt_recombine, fam_recombine),
+_CHECKS = {"crop": (rt_crop, fam_crop), "batch": (rt_batch, fam_batch), "linear": (rt_linear, fam_linear), "recombine": (rt_recombine, fam_recombine),
            "parallax": (rt_parallax, fam_parallax), "context": (rt_bf_context, fam_bf_context), "aliases": (rt_aliases, fam_aliases)}
 _REPLAY_CACHE = {}
 
@@ -1296,5 +1373,7 @@ BOUNDED = [
     Bounded.from_rt("analytic parallax: zero aberration and defocus/astigmatism shifts", rt_parallax, fam_parallax,
                     "same geometries, 6 aberration sets incl. integer-pixel shifts, rotation 0/0.35/-0.9, upsampling 1..3, full mask and proper sub-masks"),
     Bounded.from_rt("aliases give identical reconstructions", rt_aliases, fam_aliases, "2 geometries (all 5 in thorough)"),
+    Bounded.from_rt("construction mask cropping (crop_bf_mask=True) keeps pixels at their detector frequencies", rt_crop, fam_crop,
+                    "detectors 8x8, 7x7, 6x9; 7 mask extents (symmetric, heavier to either side, touching the array edge); padding 0..2", klass=crop_class),
 ]
 REPLAY = {}
